@@ -4,6 +4,8 @@ import LoraVerif.Props.C09
 import LoraVerif.Model.History
 import LoraVerif.Lemmas.MacWFStep
 import LoraVerif.Lemmas.Accept
+import LoraVerif.Lemmas.RefineOps
+import LoraVerif.Lemmas.HistoryCSafe
 /-!
 # C04 — no received frame or network command can panic or hang the device
 
@@ -339,6 +341,54 @@ theorem accept_nonempty (m : MacState) (h : MacWF m) :
     (∀ data fport conf, (fport = 0 → data = []) → data.length ≤ 222 →
       ∃ v, v < 64 ∧ ∀ {τ : Type} (t : τ), ∃ res, macSend (constGen v) m data fport conf t = .ok res) :=
   ⟨macJoinOtaa_returns m h, fun data fport conf h0 hl => macSend_returns m data fport conf h h0 hl⟩
+
+/-! ## the device front-ends: no panic for every script (by refinement)
+
+`Lemmas/RefineAsync.lean` proves that a session of the async front-end model (`asyncOps`: `send` /
+`join` under ANY script of radio answers — any length, errors at any call, frames in any window and,
+in Class C, heard between the windows —, ABP activation, the setters) is simulated by the extended
+history `runC` of the events `abstractOp` reads off the scripts; `runC_safe` (the history invariant
+`MacWF`, extended to the Class C event shapes with the same per-handler lemmas) then excludes every
+panic of the MAC.  What remains are the front-end's own two arithmetic sites: the `u32` computation
+`delay + tx_ms − lead` of the window timers, which depends on the board's timing constants only. -/
+
+/-- a device that has not been used yet -/
+def asyncStart (m : MacState) : DevRun := { m := m, script := [], calls := [], downlinks := [] }
+
+/-- **no session of the async front-end panics in the MAC, whatever the radio answers**: from any
+well-formed state, for both classes, every list of valid calls and every script, a panic of
+`asyncOps` can only be the timer arithmetic `delay + tx_ms − lead` -/
+theorem async_no_panic_from {σ} (g : Rng σ) (cfg : DevCfg) (d : DevRun) (rs : σ) (ops : List AsyncOp) (h : MacWF d.m)
+    (hv : ∀ op ∈ ops, op.valid d.m.region.id = true) (site : String)
+    (hp : asyncOps g cfg d rs ops = .error (.panic site)) :
+    site = "rx start delay overflow" ∨ site = "rx start delay underflow" := by
+  rcases (asyncOps_sim g cfg d rs ops).elim_error hp with hx | hx
+  · exact hx
+  · exfalso
+    refine (runC_safe g d.m rs (ops.map (abstractOp cfg)) h ?_).no_panic site hx
+    intro ev hev
+    obtain ⟨op, hop, rfl⟩ := List.mem_map.mp hev
+    exact abstractOp_valid cfg _ op (hv op hop)
+
+/-- … in particular from the initial state of every region -/
+theorem async_no_panic {σ} (g : Rng σ) (cfg : DevCfg) (r : RegionId) (maxPower : Nat) (gain : Int) (rs : σ)
+    (ops : List AsyncOp) (hg : gainOk r gain = true) (hv : ∀ op ∈ ops, op.valid r = true) (site : String)
+    (hp : asyncOps g cfg (asyncStart (MacState.init (RegionState.init r) maxPower gain)) rs ops = .error (.panic site)) :
+    site = "rx start delay overflow" ∨ site = "rx start delay underflow" :=
+  async_no_panic_from g cfg _ rs ops (init_wf r maxPower gain hg) (by cases r <;> exact hv) site hp
+
+/-- every state a session reaches is well-formed again (so the next call cannot panic either) -/
+theorem async_wf {σ} (g : Rng σ) (cfg : DevCfg) (d d' : DevRun) (rs rs' : σ) (ops : List AsyncOp) (obs : List OpObs)
+    (h : MacWF d.m) (hv : ∀ op ∈ ops, op.valid d.m.region.id = true)
+    (hr : asyncOps g cfg d rs ops = .ok (obs, d', rs')) : MacWF d'.m := by
+  obtain ⟨⟨ms', ocs⟩, hrun, hrel⟩ := (asyncOps_sim g cfg d rs ops).elim_ok hr
+  have hk := (runC_safe g d.m rs (ops.map (abstractOp cfg)) h (by
+    intro ev hev
+    obtain ⟨op, hop, rfl⟩ := List.mem_map.mp hev
+    exact abstractOp_valid cfg _ op (hv op hop))).elim hrun
+  have := hrel.m
+  simp only at this
+  rw [this]; exact hk.1
 
 /-! non-vacuity -/
 example : ∃ r, channelMaskUpdate (RegionState.init .US915) Mask.default 4 0xAB 0xFF = .ok r := channelMaskUpdate_ok _ _ _ _ _ (by decide) |>.imp (fun _ h => h.1)
